@@ -821,10 +821,14 @@ def c18_transition(ctx: Ctx) -> List[Violation]:
             if pa.__class__.__name__ != "ChargeQueueing":
                 ctx.cov["c18:abandoned_queue"] += 1
             continue
-        if a in instructed:
+        if a in instructed and a in addressed_by_controller(ctx):
             ctx.cov["c18:instructed_plug_in"] += 1  # the controller chose who plugs in; not the queue's grant
             continue
-        ctx.cov["c18:grant_by_queue"] += 1
+        if a in instructed:
+            ctx.cov["c18:plug_in_by_the_drivers_own_instruction"] += 1  # generated by the library itself: judged
+        else:
+            ctx.cov["c18:grant_by_queue"] += 1
+        by_driver = a in instructed
         for b, sb in pre_q.items():
             if b == a or (sb.station_id, sb.charger_id) != (sa.station_id, sa.charger_id):
                 continue
@@ -836,7 +840,7 @@ def c18_transition(ctx: Ctx) -> List[Violation]:
                 ctx.cov["c18:queue_spans_midnight"] += 1
             if int(sb.enqueue_time) < int(sa.enqueue_time):
                 out.append(
-                    Violation("C18", "overtaken", (sa.charger_id,), f"{a} (queued at {int(sa.enqueue_time)}) was granted the {sa.charger_id} plug at {sa.station_id} while {b}, queued since {int(sb.enqueue_time)}, keeps waiting")
+                    Violation("C18", "overtaken", (sa.charger_id,) + (("by_driver_instruction", instructed[a]["instruction_type"]) if by_driver else ()), f"{a} (queued at {int(sa.enqueue_time)}) was granted the {sa.charger_id} plug at {sa.station_id} while {b}, queued since {int(sb.enqueue_time)}, keeps waiting" + (f" (through its own driver's {instructed[a]['instruction_type']})" if by_driver else ""))
                 )
             elif int(sb.enqueue_time) == int(sa.enqueue_time):
                 ctx.cov["c18:tie_on_enqueue_time"] += 1
